@@ -128,7 +128,17 @@ class Env(object):
     def stmt(self, s, o, loops):
         t = s["t"]
         if t == "expr":
-            r = self.bx(s["e"], o, loops)
+            e = s["e"]
+            if e["t"] == "bin":
+                # fault site between the operands: user code (a helper called inside the
+                # expression) may raise while the left operand is already built
+                l = self.bx(e["l"], o, loops)
+                if isinstance(l, int):
+                    l = vsc.signed(int(l))
+                self.site("expr_mid", st="bin")
+                r = _binop(e["op"], l, self.bx(e["r"], o, loops))
+            else:
+                r = self.bx(e, o, loops)
             if not isinstance(r, vsc.types.expr):
                 # bare field used as a statement: force it onto the stack
                 vsc.types.to_expr(r)
